@@ -120,9 +120,25 @@ def _cross(name, gen):
         c.crosscheck = 0
 
 
-_cross("LocalDate", LocalDateG)
-_cross("LocalDateTime", LocalDateTimeG)
-_cross("YearMonth", YearMonthG)
+def _cross_each(name, gen):
+    # one contract per operation: in the combined harness the first operator raises and hides the guards of the others
+    for op in ("lt", "le", "gt", "ge", "compare_to"):
+
+        def mk(op=op):
+            @contract(H + "one_order_op", "C12", name=f"{name}: {op} on values of different calendars raises instead of answering")
+            def _(c):
+                c.ghost("cal", AbsCalG("cal")).ghost("cal2", AbsCalG("cal2")).arg("x", gen("cal")).arg("y", gen("cal2")).arg("op", Const(op))
+                c.setup = _setup
+                c.requires(lambda a: a.cal.ordinal != a.cal2.ordinal)
+                c.raises(ValueError)
+                c.crosscheck = 0
+
+        mk()
+
+
+for _nm, _g in (("LocalDate", LocalDateG), ("LocalDateTime", LocalDateTimeG), ("YearMonth", YearMonthG)):
+    _cross(_nm, _g)
+    _cross_each(_nm, _g)
 
 
 for _nm, _tgt in (("LocalDate.max", LD + "max"), ("LocalDate.min", LD + "min")):
@@ -262,3 +278,62 @@ for _nm, _gen, _key in (("Duration", DurationG, lambda a, x: V.ns(x)), ("Instant
     _order(_nm, _gen, _key, abstract=False)
 
 _ = (Obj, OneOf, YmdG)
+
+
+# ------------------------------------------------------------------------------------------------- ZonedDateTime, fixed zones
+def _zoned_eq():
+    from .c11_offset import AbsZoneG, ZonedG, _zone_setup
+
+    def same_odt(a, x, y):
+        ox, oy = V.fld(x, "_ZonedDateTime__offset_date_time"), V.fld(y, "_ZonedDateTime__offset_date_time")
+        return And(ld_dse(a, V.odt_date(ox)) == ld_dse(a, V.odt_date(oy)), V.ot_n(V.odt_ot(ox)) == V.ot_n(V.odt_ot(oy)), V.ot_off(V.odt_ot(ox)) == V.ot_off(V.odt_ot(oy)))
+
+    @contract(H + "eq_ne", "C12", name="ZonedDateTime (same zone, same calendar): == exactly when local date-time and offset agree, != is its negation")
+    def _(c):
+        c.ghost("cal", AbsCalG()).ghost("zone", AbsZoneG()).arg("x", ZonedG()).arg("y", ZonedG())
+        c.setup = _zone_setup
+        c.crosscheck = 0
+        c.replayable = False
+        c.returns(lambda a, r: And(Iff(r[0], same_odt(a, a.x, a.y)), Iff(r[1], Not(same_odt(a, a.x, a.y)))))
+
+    class OtherZone(ZonedG):
+        """the same kind of value in ANOTHER zone object (zones without value equality compare by identity)"""
+
+        def make(self, name, b):
+            from pyvc.values import SObj
+            from pyoda_time import DateTimeZone
+
+            z = super().make(name, b)
+            z.fields["_ZonedDateTime__zone"] = SObj(DateTimeZone, {"_DateTimeZone__id": "Another/Zone"}, owner=-1, tag=name + ".zone")
+            return z
+
+    @contract(H + "eq_ne", "C12", name="ZonedDateTime in two different zones: never equal, whatever the date-times")
+    def _(c):
+        c.ghost("cal", AbsCalG()).ghost("zone", AbsZoneG()).arg("x", ZonedG()).arg("y", OtherZone())
+        c.setup = _zone_setup
+        c.crosscheck = 0
+        c.replayable = False
+        c.returns(lambda a, r: And(Not(r[0]), r[1]))
+
+
+_zoned_eq()
+
+
+def _fixed_zone_eq():
+    from pyvc.contracts import OneOf
+
+    @contract(H + "fixed_zone_eq", "C12", name="fixed zones (built by the real constructor): == / equals exactly when offset, id and name agree, != is its negation, equal zones hash equally")
+    def _(c):
+        ids, names = ["UTC+01", "Etc/X"], ["UTC+01", "+01"]
+        c.arg("o1", OffsetG()).arg("id1", OneOf(ids)).arg("n1", OneOf(names)).arg("o2", OffsetG()).arg("id2", OneOf(ids)).arg("n2", OneOf(names))
+        c.crosscheck = 0
+
+        def post(a, r):
+            eq, hx, hy, ne, equals = r
+            s = And(V.off_seconds(a.o1) == V.off_seconds(a.o2), a.id1 == a.id2, a.n1 == a.n2)
+            return And(Iff(eq, s), Iff(ne, Not(s)), Iff(equals, s), Implies(s, hx == hy))
+
+        c.returns(post)
+
+
+_fixed_zone_eq()
